@@ -332,36 +332,56 @@ class Ctx:
             raise Infra("driver does not build against the current tree:\n" + "\n".join(p.stdout.splitlines()[:40]))
         return out
 
-    def run_sharded(self, binary, run, relpkg, scripts, name, shards=None, env=None, timeout=900):
+    def run_sharded(self, binary, run, relpkg, scripts, name, shards=None, env=None, timeout=900, chunk=600):
         """run a compiled driver over the scripts, sharded over processes (one controller per process);
         returns all recorded events (blocks stay contiguous)"""
         shards = max(1, min(shards or NCPU, len(scripts)))
         d = self.sub("drv_" + name)
-        procs = []
-        for i in range(shards):
-            part = scripts[i::shards]
+        # chunks of at most `chunk` scripts per process (leaked goroutines of broken code must not pile up)
+        nchunks = max(shards, (len(scripts) + chunk - 1) // chunk)
+        chunks = [scripts[i::nchunks] for i in range(nchunks)]
+        events = []
+        t0 = time.time()
+        pending = list(enumerate(chunks))
+        running = []
+
+        def start(i, part):
             sp, tp = os.path.join(d, "scripts%d.ndjson" % i), os.path.join(d, "trace%d.ndjson" % i)
             write_ndjson(sp, part)
             e = self.go_env(dict(env or {}, VERIF_SCRIPTS=sp, VERIF_TRACE_OUT=tp))
             lf = open(os.path.join(d, "out%d.txt" % i), "w")
             cwd = os.path.normpath(os.path.join(REPO, relpkg))
-            procs.append((subprocess.Popen([binary, "-test.run", run, "-test.count=1", "-test.timeout", "%ds" % timeout, "-test.v"],
-                                           cwd=cwd, env=e, stdout=lf, stderr=subprocess.STDOUT), lf, tp, i))
-        events = []
-        t0 = time.time()
-        for p, lf, tp, i in procs:
-            try:
-                rc = p.wait(timeout=timeout + 60)
-            except subprocess.TimeoutExpired:
-                p.kill()
-                raise Infra("driver shard %d timed out" % i)
+            if not os.path.isdir(cwd):      # package that only exists in the overlay
+                cwd = d
+            p = subprocess.Popen([binary, "-test.run", run, "-test.count=1", "-test.timeout", "%ds" % timeout, "-test.v"],
+                                 cwd=cwd, env=e, stdout=lf, stderr=subprocess.STDOUT)
+            return (p, lf, tp, i, time.time())
+
+        def finish(p, lf, tp, i, ts):
             lf.close()
             out = open(lf.name).read()
             if "VERIF-INFRA" in out:
                 raise Infra("driver infrastructure error:\n" + "\n".join([l for l in out.splitlines() if "VERIF-INFRA" in l][:5]))
             if "VERIF-DONE" not in out:
-                raise Infra("driver shard %d failed without finishing (rc=%s):\n%s" % (i, rc, "\n".join(out.splitlines()[-30:])))
+                raise Infra("driver chunk %d failed without finishing (rc=%s):\n%s" % (i, p.returncode, "\n".join(out.splitlines()[-30:])))
             events.extend(read_ndjson(tp))
+
+        while pending or running:
+            while pending and len(running) < shards:
+                i, part = pending.pop(0)
+                running.append(start(i, part))
+            still = []
+            for r in running:
+                if r[0].poll() is None:
+                    if time.time() - r[4] > timeout + 60:
+                        r[0].kill()
+                        raise Infra("driver chunk %d timed out" % r[3])
+                    still.append(r)
+                else:
+                    finish(*r)
+            running = still
+            if running:
+                time.sleep(0.05)
         log("driver %s: %d scripts on %d shards in %.1fs" % (name, len(scripts), shards, time.time() - t0))
         return events
 
